@@ -503,9 +503,31 @@ def model_term(case, call, prim):
     return f"resolve {lib.clist(sigs)} {lib.clist(args)}"
 
 
+NAME_CODES = {"x": 1, "y": 2, "z": 3, "args": 4, "kw": 5, "k": 6, "w": 7, "a": 8, "extra": 9}
+KIND_COQ = {"po": "PO", "pk": "POK", "va": "VP", "ko": "KO", "vk": "VK"}
+
+
+def concrete_term(case, call, prim):
+    """the same call with binding computed by the Coq binder model (Binder.Bind.bind) instead of being read
+    off the real bind_arguments; only the per-parameter acceptance tables come from the implementation"""
+    cos = []
+    for ov, sg in zip(case["overloads"], prim):
+        ps = lib.clist([f"mkParam {NAME_CODES[p['name']]}%N {KIND_COQ[p['kind']]} {lib.cbool(p['default'])}" for p in ov["params"]])
+        tables = {}
+        for b in sg["params"]:
+            tables[NAME_CODES[b["param"]]] = b["acc"]
+        rows = lib.clist([lib.clist(tables.get(i, [])) for i in range(10)])
+        cos.append(f"(mkCO {ps} (fun n => tbl (nth (N.to_nat n) {rows} [])) {RETS.index(ov['ret'])})")
+    acts = (f"(mkActuals {lib.clist(['true'] * len(call['pos']))} false "
+            f"{lib.clist([f'({NAME_CODES[k]}%N, true)' for k, _ in call['kw']])} false false)")
+    args = [lib.clist([str(ATOMS.index(m)) for m in members(t)]) for t in call_types(call)]
+    return f"resolve_concrete {lib.clist(cos)} {acts} {lib.clist(args)}"
+
+
 COQ_HEADER = (
     "From Coq Require Import List Bool Arith. Import ListNotations.\n"
-    "Require Import PV.Overload.Resolve.\n"
+    "From Coq Require Import NArith.\n"
+    "Require Import PV.Binder.Kind PV.Binder.Sig PV.Binder.Bind PV.Overload.Resolve PV.Overload.Concrete.\n"
     "Definition tbl (l : list outcome) : member -> outcome := fun m => nth m l Fail.\n"
 )
 
@@ -709,7 +731,27 @@ def gen_case(rng, ncalls):
 
 
 def gen_files():
-    return {}
+    from translate import overload as tr_overload
+
+    return {"OverloadGen.v": tr_overload.translate(str(lib.REPO))}
+
+
+def changed_regions():
+    """names of the pinned regions of signature.py whose digest differs from the committed one"""
+    from translate import overload as tr_overload
+    from translate import regions as tr_regions
+
+    try:
+        pins = tr_overload.pins(tr_regions.parse(str(lib.REPO), tr_overload.REL))
+    except tr_regions.TranslateError as ex:
+        return [str(ex)]
+    txt = (lib.THEORIES / "Proofs" / "OverloadPins.v").read_text()
+    out = []
+    for name, (region, dg) in pins.items():
+        m = re.search(r"Lemma %s_ok : %s = \"([0-9a-f]+)\"" % (name, name), txt)
+        if not m or m.group(1) != dg:
+            out.append(f"{name}: {region}")
+    return out
 
 
 # ---------------------------------------------------------------------------
@@ -749,7 +791,13 @@ def run(tier: str, replay: str | None = None):
 
     rep = lib.Report(PROP, tier, "proof")
     rng = random.Random(lib.seed() * 8089 + 8)
-    proof = lib.prove(PROP, gen_files(), thorough=(tier == "thorough"))
+    broken_translation = None
+    try:
+        gen = gen_files()
+    except Exception as ex:  # TranslateError: the translated / pinned source no longer has the expected shape
+        broken_translation = str(ex)
+        gen = {}
+    proof = lib.prove(PROP, gen, thorough=(tier == "thorough"))
 
     # 2. cases
     if replay:
@@ -794,18 +842,27 @@ def run(tier: str, replay: str | None = None):
                 continue
             terms.append(model_term(case, call, prim))
             meta.append((ci, ki))
+            if not classify(call)[2] and all(k in NAME_CODES for k, _ in call["kw"]):
+                terms.append(concrete_term(case, call, prim))
+                meta.append((ci, ki, "concrete"))
     model_ok = not any("build failed" in b for b in proof.broken)
     model = {}
+    concrete = {}
     if model_ok and terms:
         try:
             vals = lib.coq_eval(COQ_HEADER, terms, name="c08", jobs=6)
             for k, v in zip(meta, vals):
-                model[k] = decode_model(v)
+                if len(k) == 3:
+                    concrete[k[:2]] = decode_model(v)
+                else:
+                    model[k] = decode_model(v)
         except RuntimeError as ex:
             rep.violation({"kind": "broken-correspondence", "correspondence": "Overload.Resolve.resolve vs OverloadedSignature.check_call", "detail": str(ex)[-1500:]}, no_failing_input=True)
 
     # 5. verdicts
     failing = []  # (ci, ki, what, observed, expected)
+    undecided = 0
+    corr_binder = []
     known = []
     corr = []
     acc_mismatch = []
@@ -878,6 +935,9 @@ def run(tier: str, replay: str | None = None):
                 distinct.add(json.dumps([case["overloads"], call], sort_keys=True))
                 if not same(m, obs):
                     corr.append((ci, ki, obs, m))
+                cm = concrete.get((ci, ki))
+                if cm is not None and not same(cm, obs):
+                    corr_binder.append((ci, ki, obs, cm))
             # the property itself, against the independent oracle
             if star:
                 continue
@@ -904,6 +964,8 @@ def run(tier: str, replay: str | None = None):
                     # attribution: inside the guard of the finding AND the implementation behaves as the faithful model predicts
                     if nun == 1 and union_into_variadic(case, call) and m is not None and same(m, obs):
                         known.append(("C08-union-into-variadic", ci, ki))
+                    elif nun == 1 and union_into_variadic(case, call) and m is None and not model_ok:
+                        undecided += 1  # inside the finding's guard, but the model could not be built: the broken obligation is reported instead
                     else:
                         failing.append((ci, ki) + bad)
             else:
@@ -934,8 +996,15 @@ def run(tier: str, replay: str | None = None):
         ci, ki, obs, m = corr[0]
         rep.violation({"kind": "broken-correspondence", "correspondence": "Overload.Resolve.resolve vs OverloadedSignature.check_call (end to end)",
                        "input": payload(ci, ki), "observed": obs, "model": m, "n_mismatches": len(corr)}, no_failing_input=True)
+    if corr_binder and not found_input:
+        ci, ki, obs, cm = corr_binder[0]
+        rep.violation({"kind": "broken-correspondence", "correspondence": "Overload.Concrete.resolve_concrete (binding by Binder.Bind.bind) vs OverloadedSignature.check_call (end to end)",
+                       "input": payload(ci, ki), "observed": obs, "model": cm, "n_mismatches": len(corr_binder)}, no_failing_input=True)
+    if broken_translation and not found_input:
+        rep.violation({"kind": "broken-obligation", "theorem": "Gen/OverloadGen.v (translator harness/translate/overload.py)", "detail": broken_translation}, no_failing_input=True)
     if not proof.ok and not found_input:
-        rep.violation({"kind": "broken-obligation", "theorem": "; ".join(proof.broken), "log": proof.log[-1500:]}, no_failing_input=True)
+        rep.violation({"kind": "broken-obligation", "theorem": "; ".join(proof.broken), "changed_source_regions": changed_regions(),
+                       "log": proof.log[-1500:]}, no_failing_input=True)
     for cid, crash in crashes[:3]:
         rep.violation({"kind": "broken-correspondence", "correspondence": "checker raised on a generated module", "detail": crash, "chunk": cid}, no_failing_input=True)
     if acc_mismatch:
@@ -951,10 +1020,13 @@ def run(tier: str, replay: str | None = None):
         samples=samples[:5],
         traces_validated_against_impl=len(model) - len(corr),
         model_evaluated=len(model),
+        concrete_binder_model_evaluated=len(concrete),
+        concrete_binder_mismatches=len(corr_binder),
         out_of_fragment=oof,
         correspondence_mismatches=len(corr),
         oracle_failures=len(failing),
         known_finding_hits=len(known),
+        undecided_without_model=undecided,
         input_distribution=hist,
         exhaustive=False,
     )
